@@ -313,6 +313,15 @@ Lemma post_sn_send cfg c s S p :
   Good cfg c s S -> stored_ok (gw_handed_out S) p -> Post cfg c s (sn_send S p).
 Proof. apply post_sn_send_owned. Qed.
 
+Lemma post_sn_send_now cfg c s S p :
+  Good cfg c s S -> stored_ok (gw_handed_out S) p -> Post cfg c s (sn_send_now S p).
+Proof.
+  intros HG Hs. unfold sn_send_now.
+  destruct (len (pack p) <=? MaxPacketLen) eqn:Hsz; [|apply post_stop; exact HG].
+  apply N.leb_le in Hsz; split; [exact HG|].
+  intros t dg [Hin|[]]; inversion Hin; subst; apply stored_dg_ok; [apply HG|exact Hs|exact Hsz].
+Qed.
+
 Lemma post_andthen cfg c s r g :
   Post cfg c s r -> (forall s1, Good cfg c s s1 -> Post cfg c s1 (g s1)) -> Post cfg c s (andthen r g).
 Proof.
@@ -344,6 +353,7 @@ Ltac post_auto :=
          | |- Post _ _ _ (andthen _ _) => apply post_andthen; [|intros ? ?]
          | |- Post _ _ _ (sn_send _ _) => apply post_sn_send; [|try exact I]
          | |- Post _ _ _ (sn_send_owned _ _ _) => apply post_sn_send_owned; [|try exact I]
+         | |- Post _ _ _ (sn_send_now _ _) => apply post_sn_send_now; [|try exact I]
          | |- Post _ _ _ (mq_send _ _) => apply post_mq_send
          | |- Post _ _ _ (ok _ _) => apply post_ok
          | |- Post _ _ _ (stop _ _ _) => apply post_stop
@@ -1138,6 +1148,8 @@ Lemma k_sn_send_owned c S o p : gw_client_id S = c -> keeps c (sn_send_owned S o
 Proof.
   intros H. unfold sn_send_owned. destruct (gw_st S); try destruct (len (pack p) <=? MaxPacketLen); exact H.
 Qed.
+Lemma k_sn_send_now c S p : gw_client_id S = c -> keeps c (sn_send_now S p).
+Proof. intros H. unfold sn_send_now. destruct (len (pack p) <=? MaxPacketLen); exact H. Qed.
 Lemma k_andthen c r g : keeps c r -> (forall s1, gw_client_id s1 = c -> keeps c (g s1)) -> keeps c (andthen r g).
 Proof.
   intros Hs Hg. destruct r as [[s1 o1] [|e]]; unfold keeps in *; cbn [andthen st_of fst] in *.
@@ -1189,6 +1201,7 @@ Ltac k_auto :=
          | |- keeps _ (send_all _ _) => apply k_send_all
          | |- keeps _ (sn_send _ _) => apply k_sn_send_owned
          | |- keeps _ (sn_send_owned _ _ _) => apply k_sn_send_owned
+         | |- keeps _ (sn_send_now _ _) => apply k_sn_send_now
          | |- keeps _ (mq_send _ _) => apply k_mq_send
          | |- keeps _ (ok _ _) => apply k_ok
          | |- keeps _ (stop _ _ _) => apply k_stop
